@@ -3,7 +3,7 @@
 EXTENDS P21Read, TLC, Json
 Cases ==
   {[ctx |-> "plain", kind |-> k, opt |-> o, strict |-> s, form |-> f, pos |-> p] :
-      k \in Kinds, o \in BOOLEAN, s \in BOOLEAN, f \in {"$", ""}, p \in 1..3}
+      k \in Kinds \cup DefinedKinds, o \in BOOLEAN, s \in BOOLEAN, f \in {"$", ""}, p \in 1..3}
   \cup {[ctx |-> "inherited", kind |-> "int", opt |-> FALSE, strict |-> s, form |-> f, pos |-> p] :
       s \in BOOLEAN, f \in {"$", ""}, p \in 1..4}
   \cup {[ctx |-> "inherited", kind |-> "enum", opt |-> FALSE, strict |-> s, form |-> f, pos |-> 4] :
